@@ -1,5 +1,5 @@
-(* C10, the STORE-ACCESS part of the status views (Model/DispatchViews.v over Model/Dispatch.v: WrappedView = get_state over the same bound names as the dispatcher, then a total view function; AggregationView = the results of its children in order; BuffParentView = fold of add over the Some results; clock_view = read_entity global.time with a default; initialisation = install_global_properties + every component own default entities).  For all entity / payload / view-result types, components, view functions, reducers, route caches, plays.  C10_view_store_access_total: if every bound name is present or has a default the view call does not raise; C10_view_present_read_only: if all are present it also returns the store as it was; C10_view_raises_when_absent + C10_view_raises_witness: an absent bound address that no defaulted name resolves to makes it raise -- presence is exactly the guard.  C10_presence_kept_by_dispatch / _by_play: presence of all bound addresses (and of the clock) only grows, for every router dispatch from any cache and every play.  C10_presence_established_by_init: after initialisation all bound addresses are present PROVIDED binds_closed (every bind target is some component own entity or a global property: a boolean over the component data, evaluated by vm_compute on the extracted components in gen/DispatchData.v, together with the same test against the address set of the real initial store).  C10_presence_invariant: hence in every store reachable from the initial store by plays.  C10_views_never_raise_on_reachable: there, every component view, every aggregation view over installed components and the clock view evaluate (no ValueError from store access) and return the store unchanged; C10_views_read_only: under the invariant no view changes the store (in general, C10_view_frame: a view writes only setdefault of absent DEFAULTED bound entities -- C10_view_creates_missing_default is the witness).  C10_total_buff_is_sum: the buff aggregation is fold_left add (the Some results, installation order) zero, the store untouched, and for any permutation of the children the total is equivalent -- hypotheses: eqv an equivalence, add compatible, commutative, associative: exactly C11_stat_add_comm / C11_stat_add_assoc for Stat_add and Stat_seq, and C11_stat_sum_eq_fold identifies Stat.sum with this fold (not re-proved here).  Tested, not proved: view METHODS are total (the component-level part of C10, Props/C10.v and its monitor); the tie of the model to the code (H-dispatch: read sets of real view calls = the model bound addresses, store unchanged, children of the installed aggregation views, buff = Stat.sum in order). *)
-From Coq Require Import List String ZArith Permutation. From V.Model Require Import Router Play Engine Dispatch DispatchViews. From V.Proofs Require Import DispatchStore DispatchRouter DispatchPlay DispatchExamples DispatchViews DispatchViewsExamples.
+(* C10, the STORE-ACCESS part of the status views (Model/DispatchViews.v over Model/Dispatch.v: WrappedView = get_state over the same bound names as the dispatcher, then a total view function; AggregationView = the results of its children in order; BuffParentView = fold of add over the Some results; clock_view = read_entity global.time with a default; initialisation = install_global_properties + every component own default entities).  For all entity / payload / view-result types, components, view functions, reducers, route caches, plays.  C10_view_store_access_total: if every bound name is present or has a default the view call does not raise; C10_view_present_read_only: if all are present it also returns the store as it was; C10_view_raises_when_absent + C10_view_raises_witness: an absent bound address that no defaulted name resolves to makes it raise -- presence is exactly the guard.  C10_presence_kept_by_dispatch / _by_play: presence of all bound addresses (and of the clock) only grows, for every router dispatch from any cache and every play.  C10_presence_established_by_init: after initialisation all bound addresses are present PROVIDED binds_closed (every bind target is some component own entity or a global property: a boolean over the component data, evaluated by vm_compute on the extracted components in gen/DispatchData.v, together with the same test against the address set of the real initial store).  C10_presence_invariant: hence in every store reachable from the initial store by plays.  C10_views_never_raise_on_reachable: there, every component view, every aggregation view over installed components and the clock view evaluate (no ValueError from store access) and return the store unchanged; C10_views_read_only: under the invariant no view changes the store (in general, C10_view_frame: a view writes only setdefault of absent DEFAULTED bound entities -- C10_view_creates_missing_default is the witness).  C10_total_buff_is_sum: the buff aggregation is fold_left add (the Some results, installation order) zero, the store untouched, and for any permutation of the children the total is equivalent -- hypotheses: eqv an equivalence, add compatible, commutative, associative: exactly C11_stat_add_comm / C11_stat_add_assoc for Stat_add and Stat_seq, and C11_stat_sum_eq_fold identifies Stat.sum with this fold (not re-proved here).  Tested, not proved: view METHODS are total (the component-level part of C10, Props/C10.v and its monitor); the tie of the model to the code (H-dispatch: read sets of real view calls = the model bound addresses, store unchanged, children of the installed aggregation views, buff = Stat.sum in order). ENGINE LEVEL (Proofs/DispatchValidUse.v; known finding C10-validity-ignores-pending-callbacks).  The sentence 'whenever the validity view reports a skill as usable, using that skill at that moment is accepted', read at the engine (view on the current store, then play of B.use), is FALSE of the composition although it holds of every component: play relays the pending emitted callbacks of the previous action BEFORE the action (C05) and a listener may write an entity B depends on.  C10_engine_valid_accepts_refuted: a three-component system (a gauge with a listener on A.use.emitted.global.delay, a skill A announcing a delay, a skill B bound to the gauge) in which B's view and reducer satisfy the component-level law valid -> use not rejected on the SAME state (stated in the theorem, together with binds_closed, distinct names, reachability from the initial store, coherent route cache, nothing raised), the validity view of B on the current store says usable, and pplay of B.use returns B's rejection and no acknowledgement (vm_compute).  C10_engine_refuted_needs_pending: on the SAME store with no pending callbacks the use is accepted -- the pending relay is exactly what breaks it; C10_engine_refuted_flush_by_elapse0: one play of the action (name *, method elapse, payload 0) relays them and B is then no longer advertised (the finding's match criterion); C10_engine_witness_violates_hypothesis: of the hypotheses of the partial theorem only (1) fails in the witness.  TRUE PART: C10_engine_reducer_gets_view_state: if all bound addresses of B are present, no pending emitted callback can write one (statically: touched of its signature) and no dispatcher installed before B that includes the signature can write one (touched_part), then in play (store, B.use) B's reducer is called on exactly the state get_state -- hence every view of B -- reads on the current store, and the play's events contain B's tagged answer to it; C10_engine_valid_accepts_partial: hence for every view / reducer pair with the component law, valid -> B's own events contain no rejection; C10_engine_valid_accepts_no_pending: the special case of an empty pending list; C10_engine_pending_after_play: after ANY play (so after ELAPSE 0) the pending callbacks are those of that play's own events only and the queue of a play is rev(emitted pending) ++ [action] ++ done pending; C10_engine_partial_nonvacuous: the partial theorem applied to the flushed witness.  Hypotheses of the true part that stay hypotheses: coherent route cache (empty cache is, dispatch keeps it), no dispatch raised (p_ok), the method is not literally named global.reject. *)
+From Coq Require Import List String ZArith Permutation. From V.Model Require Import Router Play Engine Dispatch DispatchViews. From V.Proofs Require Import DispatchStore DispatchRouter DispatchPlay DispatchExamples DispatchViews DispatchViewsExamples DispatchValidUse DispatchValidUseExamples.
 
 Theorem C10_view_store_access_total :
   forall (Ent Pay V : Type) (c : component Ent Pay) (vf : view_fn Ent V) (st : store Ent),
@@ -179,6 +179,208 @@ Theorem C10_children_by_pattern_example :
           "buff" = "atk.buff"%string :: "buff.buff"%string :: "x.buffer"%string :: nil.
 Proof. exact @children_by_pattern. Qed.
 
+Theorem C10_engine_valid_accepts_refuted :
+  exists
+          (cs : list (component Ent Pay)) (B : component Ent Pay) (vB : fields Ent -> bool) 
+        (redB : reducer Ent Pay) (ps : wpstore),
+          let ds := installed Ent Pay 0%Z 0%Z xspent (shipped_system Ent Pay cs) in
+          let st := p_store (ent (pst Ent Pay) Pay string string (option string) ps) in
+          In B cs /\
+          dget (c_maps B) "B.use" = Some {| m_method := Some "use"%string; m_red := Some redB |} /\
+          valid_accepts Ent Pay vB redB /\
+          (forall (p : Pay) (fs : fields Ent),
+           exists (out : fields Ent) (me : maybe_events Pay), redB p fs = Some (out, me)) /\
+          binds_closed Ent Pay cs = true /\
+          names_distinct Ent Pay cs = true /\
+          reachable Ent Pay 0%Z 0%Z xspent 0%Z (fun t : Z => t) (shipped_system Ent Pay cs) 5
+            (initial_store Ent Pay 100%Z 0%Z cs) ps /\
+          wf Ent Pay 0%Z 0%Z xspent (shipped_system Ent Pay cs)
+            (ent (pst Ent Pay) Pay string string (option string) ps) /\
+          p_ok (ent (pst Ent Pay) Pay string string (option string) ps) = true /\
+          view_call Ent Pay bool B vB st = Some (st, true) /\
+          (let
+           '(ps', E, _) := pplay Ent Pay 0%Z (fun t : Z => t) 5 ds ps (PA "B" "use" (PNone Pay)) in
+            p_ok (ent (pst Ent Pay) Pay string string (option string) ps') = true /\
+            own_reject "B" E = true /\ own_accept "B" E = false).
+Proof. exact @engine_valid_accepts_refuted. Qed.
+
+Theorem C10_engine_refuted_needs_pending :
+  p_store (ent (pst Ent Pay) Pay string string (option string) w_ps1_flushed) =
+        p_store (ent (pst Ent Pay) Pay string string (option string) w_ps1) /\
+        cbs (pst Ent Pay) Pay string string (option string) w_ps1 <> nil /\
+        view_call Ent Pay bool w_B v_B
+          (p_store (ent (pst Ent Pay) Pay string string (option string) w_ps1_flushed)) =
+        Some (p_store (ent (pst Ent Pay) Pay string string (option string) w_ps1_flushed), true) /\
+        (let
+         '(ps', E, _) := w_play w_ps1_flushed (PA "B" "use" (PNone Pay)) in
+          p_ok (ent (pst Ent Pay) Pay string string (option string) ps') = true /\
+          own_reject "B" E = false /\ own_accept "B" E = true).
+Proof. exact @engine_refuted_needs_pending. Qed.
+
+Theorem C10_engine_refuted_flush_by_elapse0 :
+  let
+        '(ps2, _, q) := w_play w_ps1 (PA "*" "elapse" (PTime Pay 0)) in
+         Datatypes.length q = 5 /\
+         p_ok (ent (pst Ent Pay) Pay string string (option string) ps2) = true /\
+         view_call Ent Pay bool w_B v_B (p_store (ent (pst Ent Pay) Pay string string (option string) ps2)) =
+         Some (p_store (ent (pst Ent Pay) Pay string string (option string) ps2), false).
+Proof. exact @engine_refuted_flush_by_elapse0. Qed.
+
+Theorem C10_engine_witness_component_law :
+  valid_accepts Ent Pay v_B b_use /\
+        (forall (p : Pay) (fs : fields Ent),
+         exists (out : fields Ent) (me : maybe_events Pay), b_use p fs = Some (out, me)).
+Proof. exact @w_B_law. Qed.
+
+Theorem C10_engine_witness_violates_hypothesis :
+  existsb (eqb ".gauge.amount") (bound_addrs Ent Pay w_B) = true /\
+        existsb (eqb ".gauge.amount")
+          (flat_map (fun q : pact => touched Ent Pay 5 w_sys (sig_of (act_of Pay 0%Z (fun t : Z => t) q)))
+             (emitted_of Pay (cbs (pst Ent Pay) Pay string string (option string) w_ps1))) = true /\
+        touched_part Ent Pay 4 w_sys (IComp w_gauge :: IComp w_A :: nil) "B.use" = nil.
+Proof. exact @witness_violates_hypothesis_1. Qed.
+
+Theorem C10_engine_reducer_gets_view_state :
+  forall (Ent Pay : Type) (empty_pay : Pay) (clock0 : Ent) (spent : Ent -> Pay -> option Ent)
+          (pnone : Pay) (ptime : Z -> Pay) (pre post : list (inst Ent Pay)) (B : component Ent Pay) 
+          (n : nat) (ps : Play.store (pst Ent Pay) Pay string string (option string))
+          (a : Play.action Pay string string (option string)) (key method : string) 
+          (red : reducer Ent Pay),
+        let sys := pre ++ IComp B :: post in
+        let st := p_store (ent (pst Ent Pay) Pay string string (option string) ps) in
+        wf Ent Pay empty_pay clock0 spent sys (ent (pst Ent Pay) Pay string string (option string) ps) ->
+        find_mapping Ent Pay B (sig_of (act_of Pay pnone ptime a)) = FFound key ->
+        dget (c_maps B) key = Some {| m_method := Some method; m_red := Some red |} ->
+        (forall x : string, In x (bound_addrs Ent Pay B) -> present Ent st x) ->
+        (forall x : string,
+         In x (bound_addrs Ent Pay B) ->
+         ~
+         In x
+           (flat_map
+              (fun q : Play.action Pay string string (option string) =>
+               touched Ent Pay (S n) sys (sig_of (act_of Pay pnone ptime q)))
+              (emitted_of Pay (cbs (pst Ent Pay) Pay string string (option string) ps)))) ->
+        (forall x : string,
+         In x (bound_addrs Ent Pay B) ->
+         ~ In x (touched_part Ent Pay n sys pre (sig_of (act_of Pay pnone ptime a)))) ->
+        let
+        '(ps1, E, _) := pplay Ent Pay pnone ptime (S n) (installed Ent Pay empty_pay clock0 spent sys) ps a in
+         p_ok (ent (pst Ent Pay) Pay string string (option string) ps1) = true ->
+         exists
+           (fs out : fields Ent) (me : maybe_events Pay) (before
+                                                          after : list
+                                                                    (Play.event Pay string string
+                                                                       (option string))),
+           get_state Ent Pay B st = Some (st, fs) /\
+           red (a_pay (act_of Pay pnone ptime a)) fs = Some (out, me) /\
+           E =
+           before ++
+           map (pev_of Pay) (tag_events Pay empty_pay (c_name B) method (regularize Pay me)) ++ after.
+Proof. exact @play_gives_view_state. Qed.
+
+Theorem C10_engine_valid_accepts_partial :
+  forall (Ent Pay : Type) (empty_pay : Pay) (clock0 : Ent) (spent : Ent -> Pay -> option Ent)
+          (pnone : Pay) (ptime : Z -> Pay) (pre post : list (inst Ent Pay)) (B : component Ent Pay) 
+          (n : nat) (ps : Play.store (pst Ent Pay) Pay string string (option string))
+          (a : Play.action Pay string string (option string)) (key method : string) 
+          (red : reducer Ent Pay) (vf : fields Ent -> bool),
+        let sys := pre ++ IComp B :: post in
+        let st := p_store (ent (pst Ent Pay) Pay string string (option string) ps) in
+        wf Ent Pay empty_pay clock0 spent sys (ent (pst Ent Pay) Pay string string (option string) ps) ->
+        find_mapping Ent Pay B (sig_of (act_of Pay pnone ptime a)) = FFound key ->
+        dget (c_maps B) key = Some {| m_method := Some method; m_red := Some red |} ->
+        method <> REJECT ->
+        (forall x : string, In x (bound_addrs Ent Pay B) -> present Ent st x) ->
+        (forall x : string,
+         In x (bound_addrs Ent Pay B) ->
+         ~
+         In x
+           (flat_map
+              (fun q : Play.action Pay string string (option string) =>
+               touched Ent Pay (S n) sys (sig_of (act_of Pay pnone ptime q)))
+              (emitted_of Pay (cbs (pst Ent Pay) Pay string string (option string) ps)))) ->
+        (forall x : string,
+         In x (bound_addrs Ent Pay B) ->
+         ~ In x (touched_part Ent Pay n sys pre (sig_of (act_of Pay pnone ptime a)))) ->
+        valid_accepts Ent Pay vf red ->
+        view_call Ent Pay bool B vf st = Some (st, true) ->
+        let
+        '(ps1, E, _) := pplay Ent Pay pnone ptime (S n) (installed Ent Pay empty_pay clock0 spent sys) ps a in
+         p_ok (ent (pst Ent Pay) Pay string string (option string) ps1) = true ->
+         exists (own : list (event Pay)) (before after : list (Play.event Pay string string (option string))),
+           E = before ++ map (pev_of Pay) own ++ after /\
+           (exists (fs out : fields Ent) (me : maybe_events Pay),
+              get_state Ent Pay B st = Some (st, fs) /\
+              red (a_pay (act_of Pay pnone ptime a)) fs = Some (out, me) /\
+              own = tag_events Pay empty_pay (c_name B) method (regularize Pay me)) /\
+           existsb (raw_reject Pay) own = false.
+Proof. exact @valid_use_accepted_when_nothing_interferes. Qed.
+
+Theorem C10_engine_valid_accepts_no_pending :
+  forall (Ent Pay : Type) (empty_pay : Pay) (clock0 : Ent) (spent : Ent -> Pay -> option Ent)
+          (pnone : Pay) (ptime : Z -> Pay) (pre post : list (inst Ent Pay)) (B : component Ent Pay) 
+          (n : nat) (ps : Play.store (pst Ent Pay) Pay string string (option string))
+          (a : Play.action Pay string string (option string)) (key method : string) 
+          (red : reducer Ent Pay) (vf : fields Ent -> bool),
+        let sys := pre ++ IComp B :: post in
+        let st := p_store (ent (pst Ent Pay) Pay string string (option string) ps) in
+        cbs (pst Ent Pay) Pay string string (option string) ps = nil ->
+        wf Ent Pay empty_pay clock0 spent sys (ent (pst Ent Pay) Pay string string (option string) ps) ->
+        find_mapping Ent Pay B (sig_of (act_of Pay pnone ptime a)) = FFound key ->
+        dget (c_maps B) key = Some {| m_method := Some method; m_red := Some red |} ->
+        method <> REJECT ->
+        (forall x : string, In x (bound_addrs Ent Pay B) -> present Ent st x) ->
+        (forall x : string,
+         In x (bound_addrs Ent Pay B) ->
+         ~ In x (touched_part Ent Pay n sys pre (sig_of (act_of Pay pnone ptime a)))) ->
+        valid_accepts Ent Pay vf red ->
+        view_call Ent Pay bool B vf st = Some (st, true) ->
+        let
+        '(ps1, E, _) := pplay Ent Pay pnone ptime (S n) (installed Ent Pay empty_pay clock0 spent sys) ps a in
+         p_ok (ent (pst Ent Pay) Pay string string (option string) ps1) = true ->
+         exists (own : list (event Pay)) (before after : list (Play.event Pay string string (option string))),
+           E = before ++ map (pev_of Pay) own ++ after /\
+           (exists (fs out : fields Ent) (me : maybe_events Pay),
+              get_state Ent Pay B st = Some (st, fs) /\
+              red (a_pay (act_of Pay pnone ptime a)) fs = Some (out, me) /\
+              own = tag_events Pay empty_pay (c_name B) method (regularize Pay me)) /\
+           existsb (raw_reject Pay) own = false.
+Proof. exact @valid_use_accepted_without_pending. Qed.
+
+Theorem C10_engine_pending_after_play :
+  forall (Ent Pay : Type) (pnone : Pay) (ptime : Z -> Pay) (ds : list (disp Ent Pay)) 
+          (fuel : nat) (ps : Play.store (pst Ent Pay) Pay string string (option string))
+          (a : Play.action Pay string string (option string)),
+        let
+        '(ps1, E1, q) := pplay Ent Pay pnone ptime fuel ds ps a in
+         cbs (pst Ent Pay) Pay string string (option string) ps1 =
+         map (callbacks Pay string string (option string)) E1 /\
+         emitted_of Pay (cbs (pst Ent Pay) Pay string string (option string) ps1) =
+         rev (map (emitted Pay string string (option string)) E1) /\
+         q =
+         emitted_of Pay (cbs (pst Ent Pay) Pay string string (option string) ps) ++
+         (a :: nil) ++ map snd (cbs (pst Ent Pay) Pay string string (option string) ps).
+Proof. exact @pending_after_play. Qed.
+
+Theorem C10_engine_partial_nonvacuous :
+  let
+        '(ps1, E, _) :=
+         pplay Ent Pay 0%Z (fun t : Z => t) 5
+           (installed Ent Pay 0%Z 0%Z xspent
+              ((IComp w_gauge :: IComp w_A :: nil) ++ IComp w_B :: ITimer :: nil)) w_ps1_flushed
+           (PA "B" "use" (PNone Pay)) in
+         p_ok (ent (pst Ent Pay) Pay string string (option string) ps1) = true ->
+         exists (own : list ev) (before after : list (Play.event Pay string string (option string))),
+           E = before ++ map (pev_of Pay) own ++ after /\
+           (exists (fs out : fields Ent) (me : maybe_events Pay),
+              get_state Ent Pay w_B
+                (p_store (ent (pst Ent Pay) Pay string string (option string) w_ps1_flushed)) =
+              Some (p_store (ent (pst Ent Pay) Pay string string (option string) w_ps1_flushed), fs) /\
+              b_use (a_pay (act_of Pay 0%Z (fun t : Z => t) (PA "B" "use" (PNone Pay)))) fs = Some (out, me) /\
+              own = tag_events Pay 0%Z (c_name w_B) "use" (regularize Pay me)) /\
+           existsb (raw_reject Pay) own = false.
+Proof. exact @partial_applies_to_flushed_witness. Qed.
+
 Print Assumptions C10_view_store_access_total.
 Print Assumptions C10_view_present_read_only.
 Print Assumptions C10_view_raises_when_absent.
@@ -199,3 +401,13 @@ Print Assumptions C10_binds_closed_example.
 Print Assumptions C10_binds_not_closed_example.
 Print Assumptions C10_total_buff_example.
 Print Assumptions C10_children_by_pattern_example.
+Print Assumptions C10_engine_valid_accepts_refuted.
+Print Assumptions C10_engine_refuted_needs_pending.
+Print Assumptions C10_engine_refuted_flush_by_elapse0.
+Print Assumptions C10_engine_witness_component_law.
+Print Assumptions C10_engine_witness_violates_hypothesis.
+Print Assumptions C10_engine_reducer_gets_view_state.
+Print Assumptions C10_engine_valid_accepts_partial.
+Print Assumptions C10_engine_valid_accepts_no_pending.
+Print Assumptions C10_engine_pending_after_play.
+Print Assumptions C10_engine_partial_nonvacuous.
